@@ -38,11 +38,11 @@ Section Steps.
 
   (* (e0, ..., en)[i] with a constant in-range index is replaced by e_i - for tuples and lists *)
   Lemma project_tuple_step c v s es n c1 c2 x :
-    simp f st bd c v = Ok (Tuple es, c1) -> simp f st bd c1 s = Ok (Const (CInt n), c2) ->
+    simp f st bd c v = Ok (Tuple es, c1) -> simp f st bd c1 s = Ok (Const (CInt n), c2) -> existsb is_starred es = false ->
     py_index es n = Some x -> (- Z.of_nat (length es) <= n < Z.of_nat (length es))%Z ->
     simp (S f) st bd c (Subscript v s) = Ok (x, c2).
   Proof.
-    intros Hv Hs Hx Hr. cbn [simp]. rewrite Hv. cbn [sbind]. rewrite Hs. cbn [sbind const_index norm_index].
+    intros Hv Hs Hst Hx Hr. cbn [simp]. rewrite Hv. cbn [sbind]. rewrite Hs. cbn [sbind const_index norm_index]. rewrite Hst.
     unfold seq_project.
     replace ((n >=? Z.of_nat (length es)) || (n <? - Z.of_nat (length es)))%Z with false.
     - rewrite Hx. reflexivity.
@@ -50,11 +50,11 @@ Section Steps.
   Qed.
 
   Lemma project_list_step c v s es n c1 c2 x :
-    simp f st bd c v = Ok (List es, c1) -> simp f st bd c1 s = Ok (Const (CInt n), c2) ->
+    simp f st bd c v = Ok (List es, c1) -> simp f st bd c1 s = Ok (Const (CInt n), c2) -> existsb is_starred es = false ->
     py_index es n = Some x -> (- Z.of_nat (length es) <= n < Z.of_nat (length es))%Z ->
     simp (S f) st bd c (Subscript v s) = Ok (x, c2).
   Proof.
-    intros Hv Hs Hx Hr. cbn [simp]. rewrite Hv. cbn [sbind]. rewrite Hs. cbn [sbind const_index norm_index].
+    intros Hv Hs Hst Hx Hr. cbn [simp]. rewrite Hv. cbn [sbind]. rewrite Hs. cbn [sbind const_index norm_index]. rewrite Hst.
     unfold seq_project.
     replace ((n >=? Z.of_nat (length es)) || (n <? - Z.of_nat (length es)))%Z with false.
     - rewrite Hx. reflexivity.
@@ -64,14 +64,14 @@ Section Steps.
   (* the dedicated index error: exactly a constant index outside the literal *)
   Lemma project_out_of_range_step c v s es n c1 c2 :
     simp f st bd c v = Ok (Tuple es, c1) \/ simp f st bd c v = Ok (List es, c1) ->
-    simp f st bd c1 s = Ok (Const (CInt n), c2) ->
+    simp f st bd c1 s = Ok (Const (CInt n), c2) -> existsb is_starred es = false ->
     (n >= Z.of_nat (length es) \/ n < - Z.of_nat (length es))%Z ->
     simp (S f) st bd c (Subscript v s) = IndexErr.
   Proof.
-    intros Hv Hs Hr. cbn [simp].
+    intros Hv Hs Hst Hr. cbn [simp].
     assert (Hb : ((n >=? Z.of_nat (length es)) || (n <? - Z.of_nat (length es)))%Z = true).
     { apply orb_true_iff. destruct Hr as [Hr|Hr]; [left; apply Z.geb_le; lia | right; apply Z.ltb_lt; lia]. }
-    destruct Hv as [Hv|Hv]; rewrite Hv; cbn [sbind]; rewrite Hs; cbn [sbind const_index norm_index]; unfold seq_project; rewrite Hb; reflexivity.
+    destruct Hv as [Hv|Hv]; rewrite Hv; cbn [sbind]; rewrite Hs; cbn [sbind const_index norm_index]; rewrite Hst; unfold seq_project; rewrite Hb; reflexivity.
   Qed.
 
   (* {k0: v0, ...}[k] and {...}.k with a constant key that the literal defines: the value of its last entry *)
@@ -128,15 +128,27 @@ Section Steps.
   (* a negative literal index -(n) is a constant index *)
   Lemma negative_literal_step c v s es n c1 c2 x :
     simp f st bd c v = Ok (Tuple es, c1) \/ simp f st bd c v = Ok (List es, c1) ->
-    simp f st bd c1 s = Ok (UnaryOp USub (Const (CInt n)), c2) ->
+    simp f st bd c1 s = Ok (UnaryOp USub (Const (CInt n)), c2) -> existsb is_starred es = false ->
     py_index es (- n) = Some x -> (- Z.of_nat (length es) <= - n < Z.of_nat (length es))%Z ->
     simp (S f) st bd c (Subscript v s) = Ok (x, c2).
   Proof.
-    intros Hv Hs Hx Hr. cbn [simp].
+    intros Hv Hs Hst Hx Hr. cbn [simp].
     assert (Hb : ((- n >=? Z.of_nat (length es)) || (- n <? - Z.of_nat (length es)))%Z = false).
     { apply orb_false_iff. split; [rewrite Z.geb_leb; apply Z.leb_gt; lia | apply Z.ltb_ge; lia]. }
-    destruct Hv as [Hv|Hv]; rewrite Hv; cbn [sbind]; rewrite Hs; cbn [sbind norm_index const_index];
+    destruct Hv as [Hv|Hv]; rewrite Hv; cbn [sbind]; rewrite Hs; cbn [sbind norm_index const_index]; rewrite Hst;
       unfold seq_project; rewrite Hb, Hx; reflexivity.
+  Qed.
+
+  (* a literal with a starred element has no fixed positions: the subscript is left around the visited parts *)
+  Lemma starred_literal_step c v s es k c1 c2 :
+    simp f st bd c v = Ok (Tuple es, c1) \/ simp f st bd c v = Ok (List es, c1) ->
+    simp f st bd c1 s = Ok (Const k, c2) -> existsb is_starred es = true ->
+    simp (S f) st bd c (Subscript v s)
+    = Ok (Subscript (match simp f st bd c v with Ok (v', _) => v' | _ => v end) (Const k), c2).
+  Proof.
+    intros Hv Hs Hst. cbn [simp].
+    destruct Hv as [Hv|Hv]; rewrite Hv; cbn [sbind]; rewrite Hs; cbn [sbind norm_index]; rewrite Hst;
+      destruct (const_index k); reflexivity.
   Qed.
 
   (* a constant of the wrong type (None, a string index into a tuple, a float, ...) likewise *)
